@@ -15,31 +15,33 @@ Proof: (ii) `run_located` (Lemmas/CompileRun*.lean, induction on the evaluator's
 `Env` = "every body is laid out at the jump entry that is its id"; (iii) `layoutRoots_located`
 (Lemmas/CompileLayout*.lean) establishes `Env` for `compile p`.
 
-`WFProgram` — every exclusion:
+`WFProgram` — every exclusion (all are language-level or labelling conditions; the former technical hypotheses
+`complete` and `distinct` are theorems now: `compile_complete`, `compile_distinct`):
   language-level (shapes the AST type admits and the language cannot produce)
    1. `main0`    body 0 of the table is the program itself (the convention of `evalProgram`).
-   2. `wf` → `wfE`:
+   2. `wf` → `wfE` on every body:
       a. `unary op`: `op` is a prefix/suffix operator or `~~` (`unOK`); `binary op`: `op` is a binary operator whose
          operands are evaluated left first (`binOK`; `=` and `~>` have their own constructors: `binary makePair`
-         would evaluate left first, which no instruction sequence of the builder does).
-      b. an else-chain has at least its final arm … see (F1).
+         would evaluate left first, which no instruction sequence of the builder does);
+         a literal is not an expression value (`lit (.expr j)`: expression values come from `{}` only).
+      b. an else-chain has its final arm … see (F1).
       c. `{ }` (emptyNested) does not occur inside an out-of-line root (body of a conditional / else-chain arm,
          right operand of `&&`/`||`) … see (F2).
-      d. the body of a side-effect block contains no `^~` of the enclosing body (a restart from inside the block
-         would leave the block's copy of `$` on the input-value stack — C06's decision on non-tail `^~`).
-   3. `tail`     in the top-level program `^~` occurs only in tail positions (end of the body, of a conditional
-                 arm, of the right operand of `&&`/`||`): an operand pending at a top-level restart stays on the
-                 operand stack for good, so `s.regs = []` would fail (nested bodies are not restricted: the frame
-                 pop discards the surplus) — DESIGN §6 C06 "Decision recorded here".
+      d. the body of a side-effect block contains no `^~` of the enclosing body: a restart from inside the block
+         leaves the block's copy of `$` on the input-value stack, so after the restarted body returns the caller's
+         `$` is wrong — the compiled program and the meaning of the source differ here, this cannot be relaxed by
+         weakening the conclusion (C06's decision on non-tail `^~`; `10 [^~ 7]` is also rejected by `absDepth`).
+   3. `tail`     in the TOP-LEVEL body `^~` occurs only in tail positions (end of the body, of a conditional arm, of
+                 the right operand of `&&`/`||`): an operand pending at a top-level restart stays on the operand stack
+                 for good, so `s.regs = []` would fail. Nested bodies are NOT restricted — operand-position `^~` inside
+                 `{ … }` is covered by the theorem: the frame pop discards the surplus (what remains excluded is
+                 exactly: operand-position `^~` at top level, and any `^~` inside a side-effect block).
   labelling (the ids of `nested` are names; the theorem compares values, so the names must be the jump entries)
-   4. `labels`   the id of every nested body is the jump entry `compile` allocates for it;
+   4. `labels`   the id of every nested body is the jump entry `compile` allocates for it (this also rules out
+                 shared or cyclic references to a body);
       `covered`  every body of the table is referenced by a `nested id` that is laid out (no dead table entries,
                  which a value `.expr id` coming from the input could enter).
-  technical (true for every tree-shaped program; checked by the driver on every generated program; each could be
-  discharged by a further invariant of `emit`)
-   5. `complete` the layout loop finished within its fuel (= total size of the bodies): body references are
-                 not cyclic;
-      `distinct` the roots laid out have pairwise distinct jump entries.
+      `CompileAux.canonical` (Driver/CompileDrv.lean) renames any tree-shaped program accordingly.
   findings excluded by shape (language CAN produce them; `build` and the meaning of the source differ):
    (F1) else-chain whose last arm is conditional and fails: no value is pushed (DESIGN finding #6).
    (F2) `$ ?> { }`: the empty nested expression inside an out-of-line root refers to that root's jump entry,
@@ -48,6 +50,9 @@ Proof: (ii) `run_located` (Lemmas/CompileRun*.lean, induction on the evaluator's
 import Garnish.Lemmas.CompileRun4
 import Garnish.Lemmas.CompileLayout4
 import Garnish.Props.C06Static
+import Garnish.Lemmas.CompileDepth13
+import Garnish.Lemmas.CompileNodup
+import Garnish.Lemmas.CompileComplete
 namespace Garnish.Props.C01
 open Garnish Gen Garnish.Abs Garnish.Spec
 
@@ -59,22 +64,69 @@ structure WFProgram (p : Program F) : Prop where
   tail : tailR p.main = true
   labels : ∀ r ∈ (compileState Prog.empty p).done, ∀ id, r.kind = .ref id → r.patch = id
   covered : ∀ id b, lookupBody p.bodies id = some b → ∃ r ∈ (compileState Prog.empty p).done, r.kind = .ref id
-  complete : (compileState Prog.empty p).pending = []
-  distinct : ((compileState Prog.empty p).done.map (·.patch)).Nodup
 
 theorem compile_eq (p : Program F) : compile p = (compileState Prog.empty p).toProg := rfl
+
+theorem startState_inv : Inv (startState (F := F) Prog.empty) := by
+  refine ⟨fun r hr => ?_, fun r hr => ?_, fun r hr => ?_⟩ <;>
+    simp only [startState, List.mem_singleton] at hr <;> subst hr
+  · simp [startState, Prog.empty]
+  · simp [startState, Prog.empty]
+  · intro id _; exact ⟨rfl, rfl⟩
+
+/-- the roots laid out have pairwise distinct jump entries — for every program (formerly the technical hypothesis
+`distinct` of `WFProgram`) -/
+theorem compile_distinct (p : Program F) : ((compileState Prog.empty p).done.map (·.patch)).Nodup := by
+  have n0 : NInv (startState (F := F) Prog.empty) := ⟨by simp [startState, pats], fun q hq => by simp [startState] at hq⟩
+  have n := (layoutRoots_ninv p.bodies (bodiesSize p.bodies + 2) (startState Prog.empty) startState_inv n0).nodup
+  rw [pats, List.map_append, List.nodup_append] at n
+  exact n.2.1
+
+theorem refIds_nodup : ∀ (l : List (Root F)), (∀ r ∈ l, ∀ id, r.kind = .ref id → r.patch = id) →
+    (l.map (·.patch)).Nodup → (l.filterMap refId).Nodup
+  | [], _, _ => by simp
+  | r :: rs, hl, hn => by
+    simp only [List.map_cons, List.nodup_cons] at hn
+    have ih := refIds_nodup rs (fun q hq => hl q (List.mem_cons_of_mem _ hq)) hn.2
+    simp only [List.filterMap_cons]
+    cases hk : refId r with
+    | none => exact ih
+    | some id =>
+      simp only
+      rw [List.nodup_cons]
+      refine ⟨fun hm => ?_, ih⟩
+      obtain ⟨q, hq, hqid⟩ := List.mem_filterMap.1 hm
+      have h1 : r.patch = id := hl r List.mem_cons_self id (by
+        simp only [refId] at hk; split at hk <;> simp_all)
+      have h2 : q.patch = id := hl q (List.mem_cons_of_mem _ hq) id (by
+        simp only [refId] at hqid; split at hqid <;> simp_all)
+      exact hn.1 (List.mem_map.2 ⟨q, hq, by rw [h2, h1]⟩)
+
+/-- the layout loop finishes within its fuel when the nested bodies are named by their jump entries (formerly the
+technical hypothesis `complete` of `WFProgram`) -/
+theorem compile_complete (p : Program F)
+    (hlab : ∀ r ∈ (compileState Prog.empty p).done, ∀ id, r.kind = .ref id → r.patch = id) :
+    (compileState Prog.empty p).pending = [] := by
+  apply Classical.byContradiction
+  intro hne
+  have hsteps := layoutRoots_steps p.bodies (bodiesSize p.bodies + 2) (startState Prog.empty) startState_inv hne
+  have hbud := layoutRoots_budget p.bodies (bodiesSize p.bodies + 2) (startState Prog.empty) startState_inv
+    (by simp [startState, listW, rootW, listC, sumCr])
+  have hids := refIds_nodup _ hlab (compile_distinct p)
+  have hsum := sumCr_le p.bodies _ hids
+  have htot := totalSize_le p.bodies
+  have hd0 : (startState (F := F) Prog.empty).done.length = 0 := by simp [startState]
+  simp only [listC] at hbud
+  have e : compileState Prog.empty p = layoutRoots p.bodies (bodiesSize p.bodies + 2) (startState Prog.empty) := rfl
+  rw [← e] at hsteps hbud
+  omega
 
 /-- (iii) `layout_establishes_located` for whole programs: in `compile p` every body of the table is laid out at the
 jump entry that is its id and is followed by `EndExpression` -/
 theorem compile_env (p : Program F) (hwf : WFProgram p) : Env (compile p) p.bodies := by
-  have inv0 : Inv (startState (F := F) Prog.empty) := by
-    refine ⟨fun r hr => ?_, fun r hr => ?_, fun r hr => ?_⟩ <;>
-      simp only [startState, List.mem_singleton] at hr <;> subst hr
-    · simp [startState, Prog.empty]
-    · simp [startState, Prog.empty]
-    · intro id _; exact ⟨rfl, rfl⟩
-  have hlo := layoutRoots_located p.bodies (bodiesSize p.bodies + 1) (startState Prog.empty) inv0
-    hwf.complete (fun r hr => hwf.labels r hr) hwf.distinct
+  have inv0 := startState_inv (F := F)
+  have hlo := layoutRoots_located p.bodies (bodiesSize p.bodies + 2) (startState Prog.empty) inv0
+    (compile_complete p hwf.labels) (fun r hr => hwf.labels r hr) (compile_distinct p)
   obtain ⟨_, _, hdone, _⟩ := hlo
   constructor
   intro id b hb
@@ -273,12 +325,137 @@ example : WFProgram (exProg (F := F)) where
           [⟨.code (.lit (.num (.int 1))), 1, [(.jumpTo, some 2)], 0⟩, ⟨.ref 0, 0, [(.endExpression, none)], 0⟩] := rfl
         rw [this]; simp, rfl⟩
     · cases h
-  complete := rfl
-  distinct := by
-    have : (compileState Prog.empty (exProg (F := F))).done.map (·.patch) = [1, 0] := rfl
-    rw [this]; decide
-
 /-- the verified depth analysis accepts the compiled example (C06 static half, non-vacuity) -/
 example : (C06.absDepth (compile (exProg (F := Float))) 0).isSome = true := by decide
 
 end Garnish.Props.C01
+
+/-! ## C06, static half: every compiled program is balanced
+
+`C06_compile_balanced`: for every program whose bodies are well formed (`wfE`) and contain `^~` in tail positions
+only (`tailAll` — in EVERY body, not only the top-level one: an operand pending at a restart makes the depth at the
+body's entry depend on the path) the verified analysis `absDepth` succeeds on `compile p`. With `absDepth_sound`
+(Props/C06Static.lean): along every execution the operand depth relative to the frame base is a function of the
+program counter alone, never negative, and 1 at every `EndExpression` — for all compiled programs, all inputs, all
+hosts, all paths, any number of iterations (`C06_compile_balanced_sound`).
+Proof: `emit` carries a ghost depth for every instruction (`LState.depths`); Lemmas/CompileDepth*.lean show that this
+assignment is consistent in the final program (`loopE`: every instruction is `EdgeOK`; `loopC`: the entry of every
+`Expression` constant has depth 0); Lemmas/CompileDepthInfer.lean shows that the work-list search succeeds whenever a
+consistent assignment exists. -/
+namespace Garnish.Props.C06
+open Garnish Gen Garnish.Abs Garnish.Spec
+
+variable {F : Type} (fo : FloatOps F) (host : Host F)
+
+/-- `^~` in tail positions only, and well-formedness, in every body of the table -/
+def tailAll (p : Program F) : Bool := p.bodies.all (fun ib => wfE ib.2 && tailR ib.2)
+
+theorem lookupBody_mem {bodies : List (Nat × Expr F)} {id : Nat} {b : Expr F} (h : lookupBody bodies id = some b) :
+    (id, b) ∈ bodies := by
+  induction bodies with
+  | nil => simp [lookupBody] at h
+  | cons x xs ih =>
+    obtain ⟨k, e⟩ := x
+    simp only [lookupBody] at h
+    split at h
+    · rename_i hk
+      simp only [Option.some.injEq] at h
+      have : k = id := by simpa using hk
+      subst this; subst h
+      exact List.mem_cons_self
+    · exact List.mem_cons_of_mem _ (ih h)
+
+/-- what `C06_compile_balanced` asks of a program -/
+structure WFBalanced (p : Program F) : Prop where
+  /-- every body is well formed and has `^~` in tail positions only -/
+  tail : tailAll p = true
+  /-- every nested id that is laid out has a body in the table -/
+  closed : ∀ r ∈ (compileState Prog.empty p).done, ∀ id, r.kind = .ref id → ∃ b, lookupBody p.bodies id = some b
+  labels : ∀ r ∈ (compileState Prog.empty p).done, ∀ id, r.kind = .ref id → r.patch = id
+
+theorem startState_inv' : Inv (startState (F := F) Prog.empty) := by
+  refine ⟨fun r hr => ?_, fun r hr => ?_, fun r hr => ?_⟩ <;>
+    simp only [startState, List.mem_singleton] at hr <;> subst hr
+  · simp [startState, Prog.empty]
+  · simp [startState, Prog.empty]
+  · intro id _; exact ⟨rfl, rfl⟩
+
+/-- **C06_compile_balanced**: the verified depth analysis succeeds on every compiled program -/
+theorem C06_compile_balanced (p : Program F) (h : WFBalanced p) :
+    ∃ d, absDepth (compile p) ((compile p).jumps[0]?.getD 0) = some d := by
+  have inv0 := C01.startState_inv (F := F)
+  have hdist := C01.compile_distinct p
+  have hcomplete := C01.compile_complete p h.labels
+  have dinv0 : DInv (startState (F := F) Prog.empty) := ⟨by simp [Al, startState, Prog.empty], by simp [startState]⟩
+  have hprog : ∀ id b, lookupBody p.bodies id = some b → wfE b = true ∧ tailR b = true := by
+    intro id b hb
+    have := List.all_eq_true.1 h.tail (id, b) (lookupBody_mem hb)
+    simpa using this
+  have hyp0 : ∀ q ∈ (startState (F := F) Prog.empty).pending.zip (startState (F := F) Prog.empty).pendDep,
+      TermOK (compileState Prog.empty p) q.1 q.2 := by
+    intro q hq
+    simp only [startState, List.zip_cons_cons, List.zip_nil_right, List.mem_singleton] at hq
+    subst hq
+    exact ⟨fun j hj => by simp at hj, fun b hb => by simp at hb, fun _ _ => rfl⟩
+  have hE := loopE p.bodies (bodiesSize p.bodies + 2) (startState Prog.empty) inv0 dinv0 hcomplete
+    (fun r hr => h.labels r hr) hdist hprog h.closed hyp0
+  have hC := loopC p.bodies (bodiesSize p.bodies + 2) (startState Prog.empty) inv0 dinv0 hcomplete
+    (fun r hr => h.labels r hr) hdist hprog h.closed hyp0
+  obtain ⟨_, alF, hroots⟩ := monoD p.bodies (bodiesSize p.bodies + 2) (startState Prog.empty) inv0 dinv0 hcomplete
+    (fun r hr => h.labels r hr) hdist
+  have hD : DOK (compile p) (compileState Prog.empty p).depths := by
+    refine ⟨alF, fun pc k hk => ?_⟩
+    have hlt : pc < (compileState Prog.empty p).instrs.size := by
+      have := (Array.getElem?_eq_some_iff.mp hk).1
+      have e : (compileState Prog.empty p).depths.size = (compileState Prog.empty p).instrs.size := alF
+      omega
+    obtain ⟨k', es, hd, he, hes⟩ := hE pc (by simp [startState, Prog.empty]) hlt
+    have hd : (compileState Prog.empty p).depths[pc]? = some k' := hd
+    rw [hk] at hd
+    simp only [Option.some.injEq] at hd
+    subst hd
+    exact ⟨es, he, hes⟩
+  refine absDepth_complete hD (fun t ht => ?_)
+  simp only [List.mem_cons] at ht
+  rcases ht with rfl | ht
+  · have hr0 := hroots (⟨.ref 0, 0, [(.endExpression, none)], 0⟩, 0) (by simp [startState, Prog.empty])
+    cases hj : (compile p).jumps[0]? with
+    | none =>
+      simp only [Option.getD_none]
+      have hj0 := head_jump p.bodies (fuel := bodiesSize p.bodies + 1) (s := startState Prog.empty) inv0
+        (r := ⟨.ref 0, 0, [(.endExpression, none)], 0⟩) (rest := []) (by simp [startState, Prog.empty]) hcomplete
+        (fun r hr => h.labels r hr) hdist
+      have : (compile p).jumps[0]? = some 0 := hj0
+      rw [hj] at this; cases this
+    | some t =>
+      simp only [Option.getD_some]
+      exact hr0 t hj
+  · simp only [exprEntries, List.mem_filterMap] at ht
+    obtain ⟨v, hv, hvt⟩ := ht
+    cases v with
+    | expr j =>
+      simp only at hvt
+      obtain ⟨k, hk, hkv⟩ := List.getElem_of_mem hv
+      have hck : (compile p).consts[k]? = some (.expr j) := by
+        rw [← Array.getElem?_toList]
+        rw [List.getElem?_eq_getElem hk, hkv]
+      exact hC k j (Nat.zero_le _) hck t hvt
+    | _ => simp at hvt
+
+/-- the static half of C06 for all compiled programs: the analysis succeeds, and therefore along every execution
+(in which the expressions entered are bodies known to the analysis) the frame-relative operand depth is the one
+the analysis assigns to the program counter — path-independent and never negative — and it is exactly 1 at every
+`EndExpression` -/
+theorem C06_compile_balanced_sound (p : Program F) (h : WFBalanced p) :
+    ∃ d, absDepth (compile p) ((compile p).jumps[0]?.getD 0) = some d ∧
+      ∀ (vals : List (Val F)) (tr : List (HostCall F)) (s : MState F),
+        (compile p).jumps[0]?.getD 0 < (compile p).instrs.size →
+        ReachK fo host (compile p) ((compile p).jumps[0]?.getD 0 :: exprEntries (compile p))
+          ⟨(compile p).jumps[0]?.getD 0, [], vals, [], tr⟩ s →
+        Good (compile p) d s ∧
+        (∀ o, (compile p).instrs[s.pc]? = some (.endExpression, o) → s.regs.length = base s.frames + 1) := by
+  obtain ⟨d, hd⟩ := C06_compile_balanced p h
+  refine ⟨d, hd, fun vals tr s hentry hr => ⟨absDepth_sound (fo := fo) (host := host) hd hentry vals tr hr, fun o hi => ?_⟩⟩
+  exact absDepth_endExpression_one (fo := fo) (host := host) hd hentry vals tr hr hi
+
+end Garnish.Props.C06
